@@ -100,7 +100,9 @@ def impl_apply(tree, rn, i):
         rroot = res.get_root()
         out["audit"] = core.audit_links(rroot)
         try:
-            out["impl"] = ("ok", core.to_tuple(rroot, tags))
+            res = core.to_tuple(rroot, tags)
+            out["impl"] = ("ok", res)
+            out["value"] = core.refines(tree, res)   # property oracle, evaluated in the worker
         except core.Unmodelled as u:
             out["impl"] = ("unmodelled", str(u))
         try:
@@ -223,7 +225,7 @@ def compare(recs):
                 d["print"].append(dict(base, exc=a.get("print_exc")))
             if core.tuple_vars(res) != core.tuple_vars(tree):
                 d["vars"].append(dict(base, result=res))
-            bad = core.refines(tree, res)
+            bad = a.get("value")
             if bad is not None:
                 d["value"].append(dict(base, result=res, witness=bad))
             if model[0] == "err":
